@@ -65,11 +65,16 @@ example : chunkStats 10 20 exChunk = {} ∧ chunkStats 5 4 exChunk = {} := by de
 
 /-! ## 3. one series: memtable + ordered + out-of-order files -/
 
-/-- **the statistics path equals the rows**, for every layout in which no timestamp of the
-series is held by two containers, and every time range. -/
-theorem aggViaStats_eq_aggRows_partial {d : SeriesData} (hw : d.WF) (hk : NoKeyTwice d) (lo hi : Int) :
-    aggViaStats lo hi d = aggRows lo hi d := by
+/-- **the statistics path equals the rows**, for every layout and every time range such that no
+timestamp of the range is held by two containers of the series. -/
+theorem aggViaStats_eq_aggRows_partial {d : SeriesData} (hw : d.WF) {lo hi : Int}
+    (hk : NoKeyTwiceIn lo hi d) : aggViaStats lo hi d = aggRows lo hi d := by
   rw [aggViaStats_eq_mergeOf hw, aggRows_eq_mergeOf hw hk]
+
+/-- in particular for every range when no timestamp at all is held by two containers (no
+(series, timestamp) written in two flush generations, or the generations compacted since). -/
+theorem aggViaStats_eq_aggRows_noKeyTwice {d : SeriesData} (hw : d.WF) (hk : NoKeyTwice d) (lo hi : Int) :
+    aggViaStats lo hi d = aggRows lo hi d := aggViaStats_eq_aggRows_partial hw (hk.restrict lo hi)
 
 /-- the un-guarded statement … -/
 def aggViaStats_eq_aggRows_full : Prop :=
@@ -88,12 +93,14 @@ theorem aggViaStats_eq_aggRows_full_fails : ¬ aggViaStats_eq_aggRows_full := by
 example : (aggViaStats 0 9 crossGen).count = 4 ∧ (aggRows 0 9 crossGen).count = 3 ∧
     (aggViaStats 0 9 crossGen).sum = 16 ∧ (aggRows 0 9 crossGen).sum = 13 := by decide
 example : ¬ NoKeyTwice crossGen := by decide
+-- the duplicate key is outside the range: the paths agree although the layout has one
+example : NoKeyTwiceIn 2 9 crossGen ∧ aggViaStats 2 9 crossGen = aggRows 2 9 crossGen := by decide
 
 /-- the caveat exactly as the property words it: the two paths can differ only when some
 timestamp of the series sits in two containers. -/
 theorem double_count_only_cross_generation {d : SeriesData} (hw : d.WF) {lo hi : Int}
-    (h : aggViaStats lo hi d ≠ aggRows lo hi d) : ¬ NoKeyTwice d :=
-  fun hk => h (aggViaStats_eq_aggRows_partial hw hk lo hi)
+    (h : aggViaStats lo hi d ≠ aggRows lo hi d) : ¬ NoKeyTwiceIn lo hi d ∧ ¬ NoKeyTwice d :=
+  ⟨fun hk => h (aggViaStats_eq_aggRows_partial hw hk), fun hk => h (aggViaStats_eq_aggRows_noKeyTwice hw hk lo hi)⟩
 
 def exData : SeriesData :=
   ⟨[⟨10, some 1⟩, ⟨11, none⟩, ⟨12, some 1⟩], [[[⟨0, some 4⟩, ⟨5, some 2⟩]], exChunk]⟩
@@ -129,7 +136,7 @@ bucket; an eligible query has neither filter nor bucket, so they are `viewRows`.
 theorem eligible_implies_safe (q : QueryShape) {d : SeriesData} (hw : d.WF) (lo hi : Int)
     (selected : List Row) (hsel : matchPreAgg q = true → selected = viewRows lo hi d)
     (h : q.hint = Hint.ExactStatisticQuery ∨ q.hasInterval = true ∨ q.ctxFieldCond = true ∨
-         q.schemaFieldCond = true ∨ NoKeyTwice d) :
+         q.schemaFieldCond = true ∨ NoKeyTwiceIn lo hi d) :
     answer q lo hi d selected = buildStats selected := by
   unfold answer
   split
@@ -140,14 +147,14 @@ theorem eligible_implies_safe (q : QueryShape) {d : SeriesData} (hw : d.WF) (lo 
     · rw [hs.2.2.2.1] at h; cases h
     · rw [hs.2.2.2.2.1] at h; cases h
     · rw [hs.2.2.2.2.2.1] at h; cases h
-    · rw [hsel he]; exact aggViaStats_eq_aggRows_partial hw h lo hi
+    · rw [hsel he]; exact aggViaStats_eq_aggRows_partial hw h
   · rfl
 
 /-- whenever the eligibility predicate fires and no key spans two containers: shortcut = rows. -/
 theorem eligible_implies_safe_partial {q : QueryShape} (_he : matchPreAgg q = true) {d : SeriesData}
     (hw : d.WF) (hk : NoKeyTwice d) (lo hi : Int) :
     answer q lo hi d (viewRows lo hi d) = aggRows lo hi d :=
-  eligible_implies_safe q hw lo hi _ (fun _ => rfl) (Or.inr (Or.inr (Or.inr (Or.inr hk))))
+  eligible_implies_safe q hw lo hi _ (fun _ => rfl) (Or.inr (Or.inr (Or.inr (Or.inr (hk.restrict lo hi)))))
 
 def exEligible : QueryShape :=
   { preAggEnabled := true, hasCall := true, hasNonPreCall := false, hasInterval := false,
@@ -172,9 +179,9 @@ theorem stats_meaning (l : List Row) :
   ⟨mergeOf_count l, mergeOf_sum l, mergeOf_min_spec l, mergeOf_max_spec l, mergeOf_first_spec l, mergeOf_last_spec l⟩
 
 /-- the rows of the plain select are sorted by time, so the scan-order record is that record. -/
-theorem aggRows_meaning {d : SeriesData} (hw : d.WF) (hk : NoKeyTwice d) (lo hi : Int) :
+theorem aggRows_meaning {d : SeriesData} (hw : d.WF) {lo hi : Int} (hk : NoKeyTwiceIn lo hi d) :
     aggRows lo hi d = mergeOf (((containers d).map (fun c => c.filter (inRange lo hi))).flatten) :=
-  aggRows_eq_mergeOf hw hk lo hi
+  aggRows_eq_mergeOf hw hk
 
 /-- a group of series (GROUP BY tag, or none): merging the per-series answers is the record of
 all the rows of the group. -/
